@@ -2,5 +2,5 @@
 # usage: why.sh <seeded-id> <props>   — apply the seeded patch to a scratch copy of /repo and show non-discharged obligations
 export GOFLAGS=-mod=mod GOPROXY=off GOSUMDB=off GOTOOLCHAIN=local GOWORK=off
 d=$(mktemp -d /tmp/why-XXXX); rsync -a --exclude .git /repo/ $d/; (cd $d && patch -p1 -s < /verif/seeded/$1/patch.diff) || { echo patch failed; rm -rf $d; exit 1; }
-/verif/bin/utilcheck -repo $d -prop $2 -no-evidence -v 2>&1 | grep -a -v '^discharged\|^VIOLATION\|^UNDECIDED' | cut -c1-330
+${UTILCHECK:-/verif/bin/utilcheck} -repo $d -prop $2 -no-evidence -v 2>&1 | grep -a -v '^discharged\|^VIOLATION\|^UNDECIDED' | cut -c1-330
 rm -rf $d
